@@ -75,9 +75,44 @@ def instances(tier, seed):
                     add(mode="svd", m=2, n=2, ql=ql, qr=qr, qt=qt, system="L", full=False)
                     add(mode="qr", m=2, n=2, ql=ql, qr=qr, qt=qt, system="R", full=False)
                     add(mode="svd", m=2, n=2, ql=ql, qr=qr, qt=qt, system="L", full=True)
+    out.extend(krylov_float_instances(tier))
     for kw in krylov_instances(tier):
         out.append(kw)
     return out
+
+
+def krylov_float_instances(tier):
+    """float build: whether the result keeps its imaginary part depends on the dtypes of start vector and time step, which the object backend cannot
+    represent.  One run per (matrix dtype, vector dtype, dt kind); dimensions small enough that the Krylov space is the full space, where the result is
+    exact up to rounding (tolerance 1e-8) - no statement about convergence at larger sizes"""
+    out = []
+    for n in ((3,) if tier == "quick" else (2, 3, 5)):
+        for vkind in ("real", "complex"):
+            for dkind in ("real", "imag", "complex"):
+                for akind in ("real",) + (("complex",) if vkind == "complex" else ()):     # (complex Hermitian A with a real start vector is outside the library's own use)
+                    out.append(dict(mode="krylov_float", n=n, vkind=vkind, dkind=dkind, akind=akind, concrete=True,
+                                    label="[float build] expm_krylov n=%d A %s, start vector %s, dt %s" % (n, akind, vkind, dkind), key="krylov/floatbuild"))
+    return out
+
+
+def make_krylov_float(P):
+    def h(ctx):
+        from renormalizer.lib.krylov import krylov as kr
+        import scipy.linalg
+        n = P["n"]
+        rng = np.random.RandomState(7 + n)
+        a = rng.rand(n, n) - 0.5
+        if P["akind"] == "complex":
+            a = a + 1j * (rng.rand(n, n) - 0.5)
+        A = (a + a.conj().T) / 2
+        v = rng.rand(n) - 0.5
+        if P["vkind"] == "complex":
+            v = v + 1j * (rng.rand(n) - 0.5)
+        dt = {"real": -0.7, "imag": -0.9j, "complex": 0.3 - 0.8j}[P["dkind"]]
+        res, j = kr.expm_krylov(lambda x: A.dot(x), dt, v, block_size=n + 2)
+        ref = scipy.linalg.expm(dt * A).dot(v)
+        ctx.check("expm_krylov (Krylov space = full space) = expm(dt A) v to 1e-8, imaginary part included", bool(np.max(np.abs(np.asarray(res) - ref)) <= 1e-8))
+    return h
 
 
 def krylov_instances(tier):
@@ -114,6 +149,8 @@ def _allowed(ctx, ql_i, qr_j, qt):
 def make_harness(P):
     if P["mode"] == "krylov":
         return make_krylov_harness(P)
+    if P["mode"] == "krylov_float":
+        return make_krylov_float(P)
 
     def h(ctx):
         from renormalizer.mps import svd_qn as sq
